@@ -18,24 +18,24 @@ open Logrange.LineReader Logrange.ScanWorker Logrange.Descs
 
 /-- **`lines_concat`** For every script `src` (content of the file from `start` on *and* the way it arrives:
 pieces, EOFs in between, cancellation), every buffer size `B`, any number `n` of `NextRecord` calls after
-`SetStreamPos(start)`: the records are the reader's lines; the returned lines, then the partial line that was
-pending when the run ended, then what bufio still buffers, then what the source has not delivered yet are
-together exactly the file's bytes from `start` — nothing dropped, duplicated or reordered —, and the parser's
-position is `start` plus the number of bytes returned. -/
+`SetStreamPos(start)` (the caller polls again after every EOF): the records are the reader's lines; the returned
+lines, then the partial line the reader keeps (`pend`), then what bufio still buffers, then what the source has
+not delivered yet are together exactly the file's bytes from `start` — nothing dropped, duplicated or reordered —,
+and the parser's position is `start` plus the number of bytes returned (so `lines ++ pend = file[start … consumed)`). -/
 theorem lines_concat (B n start : Nat) (src : List Piece) :
     let p := setStreamPos start src
     let recs := (nextRecords B n p).1
-    let p' := (nextRecords B n p).2.1
-    let rl := readLines B n p.lr
-    recs = rl.1 ∧
-    recs.flatten ++ pendingOf rl.2.2 ++ p'.lr.buf ++ flat p'.lr.pieces = flat src ∧
+    let p' := (nextRecords B n p).2
+    recs = (readLines B n p.lr).1 ∧
+    recs.flatten ++ p'.lr.pend ++ p'.lr.buf ++ flat p'.lr.pieces = flat src ∧
     p'.pos = start + recs.flatten.length := by
-  intro p recs p' rl
+  intro p recs p'
   have h1 := nextRecords_lines B n p
   have h2 := readLines_conserve B n p.lr
   have h3 := nextRecords_pos B n p
   refine ⟨h1.1, ?_, h3⟩
-  show (nextRecords B n p).1.flatten ++ _ ++ (nextRecords B n p).2.1.lr.buf ++ flat (nextRecords B n p).2.1.lr.pieces = _
+  show (nextRecords B n p).1.flatten ++ (nextRecords B n p).2.lr.pend ++ (nextRecords B n p).2.lr.buf
+    ++ flat (nextRecords B n p).2.lr.pieces = _
   rw [h1.1, h1.2, h2]
   simp [p, setStreamPos]
 
@@ -46,7 +46,7 @@ theorem line_shape (B n start : Nat) (src : List Piece) (l : Bytes)
     (h : l ∈ (nextRecords B n (setStreamPos start src)).1) :
     (l.getLast? = some 10 ∨ B ≤ l.length) ∧ (10 : UInt8) ∉ l.dropLast := by
   rw [(nextRecords_lines B n _).1] at h
-  exact readLines_shape B n _ l h
+  exact readLines_shape B n _ (by simp [PendOk, setStreamPos]) l h
 
 /-- records are never empty (the record limit the configuration accepts is at least bufio's minimum) -/
 theorem record_nonempty (B n start : Nat) (hB : 1 ≤ B) (src : List Piece) (l : Bytes)
@@ -61,18 +61,21 @@ theorem record_nonempty (B n start : Nat) (hB : 1 ≤ B) (src : List Piece) (l :
 theorem readSlice_answers (B : Nat) (s : St) : (readSlice B (sliceFuel s) s).2 ≠ .oof :=
   readSlice_fuel B (sliceFuel s) s (by simp [sliceFuel])
 
-/-- **`pending_partial_never_eof`** (the mechanism of finding F50). Once `readLine` holds a partial line (bytes
-without a newline, fewer than a buffer), it never answers EOF, whatever the source does: it returns only when the
-line is completed, the buffer fills, or the context is cancelled. A worker told to run until EOF on a rotated
-file whose last line is never completed therefore never gets the EOF it waits for. -/
-theorem pending_partial_never_eof (B fuel : Nat) (s : St) (partialLine : Bytes) (h : partialLine ≠ []) :
-    (readLineGo B fuel s partialLine).2 ≠ .eof :=
-  readLineGo_pending_never_eof B fuel s partialLine h
+/-- **`partial_line_poll_reports_eof`** (what fix 7a8317a establishes at the reader): with nothing buffered and the
+source reporting EOF for now, one call answers EOF at once — whatever partial line is pending — and keeps that
+partial line unchanged for the next call. (Before the fix the call never returned while a partial line was
+pending: finding F50.) -/
+theorem partial_line_poll_reports_eof (B : Nat) (hB : 0 < B) (s : St) (ps : List Piece)
+    (hc : s.cancelled = false) (hb : s.buf = []) (hp : s.pieces = .eof :: ps) :
+    (readLine B s).2 = .eof ∧ (readLine B s).1.pend = s.pend ∧ (readLine B s).1.pieces = ps := by
+  rw [readLine_at_source_eof B s ps hc hb hB hp]
+  exact ⟨rfl, rfl, rfl⟩
 
 /-- the code facts the model's offset accounting rests on, as the extractor reads them from `/repo` now -/
 theorem code_facts :
     Generated.C17.posAdvancesByLineLength = true ∧ Generated.C17.setOffsetOnlyAfterConfirm = true ∧
     Generated.C17.finalPersistAfterLoop = true ∧ Generated.C17.eventGetsOwnRecordSlice = true ∧
+    Generated.C17.readerKeepsPartialReportsEOF = true ∧
     16 ≤ Generated.C17.recordMaxSizeMin ∧
     Generated.C17.recordMaxSizeMin ≤ Generated.C17.recordMaxSizeDefault ∧
     Generated.C17.recordMaxSizeDefault ≤ Generated.C17.recordMaxSizeMax := by decide
@@ -230,6 +233,41 @@ theorem drains_when_quiet (k start : Nat) (hk : 1 ≤ k) (tr : List L) (lines : 
   show s'.offset = start + bytesOf s'.confirmed
   rw [hd.offset, hpos']
 
+/-- **`rotated_partial_line_worker_stops`** (what fix 7a8317a establishes at the worker). Take any reachable state
+at a loop head of a worker that was told to run until EOF (its file was rotated out or replaced; not cancelled,
+nothing abandoned). If the file no longer grows — `NextRecord` answers the pending complete lines and then EOF,
+which the reader now reports at its first poll even while a partial last line is pending
+(`partial_line_poll_reports_eof`) — and the consumer confirms at once, then after the schedule `drain` of at most
+`7 · |lines| + 7` steps (exactly one EOF poll) the worker has left its loop through the "EOF reached" rule, every
+pending complete line has been handed over and confirmed, and the offset is the end of the confirmed bytes: the
+worker, its goroutine and its file descriptor are released; the never-completed partial line is not shipped. -/
+theorem rotated_partial_line_worker_stops (k start : Nat) (hk : 1 ≤ k) (tr : List L) (lines : List Bytes) :
+    let s := run (codeCfg k) (init start) tr
+    QuietU s → s.dropped = false →
+    let sched := drain k s.recs.length lines
+    let s' := run (codeCfg k) s sched
+    sched.length ≤ 7 * lines.length + 7 ∧
+    s'.pc = .done ∧ s'.stoppedByEof = true ∧ s'.wstate = .stopped ∧
+    s'.confirmed = s.confirmed ++ s.recs ++ lines ∧ s'.offset = s'.pos ∧ s'.pos = start + bytesOf s'.confirmed := by
+  intro s hq hnd sched s'
+  have hw : WInv s := winv_run _ tr (init start) (winv_init start)
+  have hst : s.start = start := run_start _ tr (init start)
+  have hlen : lenOk k s := lenOk_run (codeCfg k) hk tr (init start) (lenOk_init k start hk)
+  have hlt : s.recs.length < k := by
+    have := hlen; simp only [lenOk, hq.pc] at this; exact this
+  have hoff : s.offset + bytesOf s.recs = s.pos := by
+    have h1 := hw.offEq; have h2 := hw.posEq hnd
+    simp only [hq.pc, isSetting, Bool.false_eq_true, if_false] at h1 h2
+    omega
+  have hd : Stopped s s' lines := drain_stops (codeCfg k) hk lines s hq hlt hoff
+  have hw' : WInv s' := winv_run _ _ s hw
+  have hnd' : s'.dropped = false := by rw [hd.dropped]; exact hnd
+  have hpos' : s'.pos = start + bytesOf s'.confirmed := by
+    have := hw'.posEq hnd'
+    simp only [hd.pc, isSetting, Bool.false_eq_true, if_false, hd.recs, bytesOf_nil, confEnd, hd.start, hst] at this
+    omega
+  exact ⟨drain_length k lines _, hd.pc, hd.byEof, hd.ws, hd.confirmed, hd.offset, hpos'⟩
+
 /-! ## rotation -/
 
 /-- **`rotated_file_drained`** A worker that ended through the "EOF reached" rule has seen, *after* it was told to
@@ -290,6 +328,28 @@ theorem same_id_shrunk_restarts (od nd : Desc) (restat : Option Nat)
       od.offset ≤ effSize Generated.C17.mergeRestatsAfterOffset od nd restat) := by omega
   simp [this]
 
+/-- **`truncated_file_read_from_beginning`** A file truncated in place (same id; the size the merge decides with is
+below what was seen or below the offset) gets the scanned descriptor, offset 0 as `scanPaths` produces it; the old
+worker stops at its next EOF (`rotated_partial_line_worker_stops`), and the new worker's `SetStreamPos(0)` reads
+the new content from its first byte: records, pending partial line, buffer and undelivered rest are exactly the
+new content. -/
+theorem truncated_file_read_from_beginning (od nd : Desc) (restat : Option Nat) (hz : nd.offset = 0)
+    (h : effSize Generated.C17.mergeRestatsAfterOffset od nd restat < od.lastSeenSize ∨
+         effSize Generated.C17.mergeRestatsAfterOffset od nd restat < od.offset)
+    (B n : Nat) (src : List Piece) :
+    let d := (codeMergeOne (some od) nd restat).1
+    d.offset = 0 ∧
+    let p' := (nextRecords B n (setStreamPos d.offset src)).2
+    (nextRecords B n (setStreamPos d.offset src)).1.flatten ++ p'.lr.pend ++ p'.lr.buf ++ flat p'.lr.pieces = flat src ∧
+    p'.pos = (nextRecords B n (setStreamPos d.offset src)).1.flatten.length := by
+  intro d
+  have hd : d.offset = 0 := by rw [← hz]; exact (same_id_shrunk_restarts od nd restat h).2
+  refine ⟨hd, ?_⟩
+  rw [hd]
+  have := lines_concat B n 0 src
+  simp only [] at this
+  exact ⟨this.2.1, by rw [this.2.2]; simp⟩
+
 /-- **`cex_stale_size_resend_old`** (finding F17b, fixed by f247e22 — kept as the behaviour of the *old* merge,
 `restats = false`): 17 bytes at the scan's stat, 31 bytes shipped and confirmed by the time of the merge ⇒ the
 scanned descriptor (offset 0) replaces the old one and the file is sent again. With the second stat it is kept. -/
@@ -303,14 +363,18 @@ theorem cex_stale_size_resend_old :
 /-- "ab\ncd" arrives as "a", EOF, "b\nc", EOF, "d", then nothing more: one line, and "cd" is the pending partial -/
 example :
     let r := readLines 16 5 { pieces := [.data [97], .eof, .data [98, 10, 99], .eof, .data [100]] }
-    r.1 = [[97, 98, 10]] ∧ pendingOf r.2.2 = [99, 100] := by decide
+    r.1 = [[97, 98, 10]] ∧ r.2.pend = [99, 100] := by decide
+
+/-- the poll that finds nothing new answers EOF and keeps the partial line "ab" -/
+example : (readLine 16 { pieces := [.eof, .data [10]], pend := [97, 98] }).2 = .eof ∧
+    (readLine 16 { pieces := [.eof, .data [10]], pend := [97, 98] }).1.pend = [97, 98] := by decide
 
 /-- a 5-byte line with `B = 4` is split into 4 + 1 bytes, nothing dropped -/
 example : (nextRecords 4 3 (setStreamPos 7 [.data [1, 2, 3, 4, 10]])).1 = [[1, 2, 3, 4], [10]] ∧
-    (nextRecords 4 3 (setStreamPos 7 [.data [1, 2, 3, 4, 10]])).2.1.pos = 12 := by decide
+    (nextRecords 4 3 (setStreamPos 7 [.data [1, 2, 3, 4, 10]])).2.pos = 12 := by decide
 
 /-- the record limit is not an upper bound: a line appended in small pieces with pauses accumulates -/
-example : (readLines 2 1 { pieces := [.data [1], .eof, .data [2], .eof, .data [3], .eof, .data [10]] }).1
+example : (readLines 2 4 { pieces := [.data [1], .eof, .data [2], .eof, .data [3], .eof, .data [10]] }).1
     = [[1, 2, 3, 10]] := by decide
 
 /-- a full batch is sent, confirmed, the offset set, persisted: offset 2 = end of the confirmed record -/
